@@ -147,4 +147,31 @@ theorem smudge_to_file_exact (recorded : Lfs.Ptr) (st : Co.Store) (content : Lfs
   · rename_i h0; exact absurd h0 hs
   · simp [h]
 
+/-! tie to commands/command_merge_driver.go (mergeProcessInput) as it is in /repo now -/
+set_option maxRecDepth 100000 in
+/-- every version that goes into a merge gets a temporary file of its own, filled by copying (non-LFS content) or by
+    smudging the pointer: there is no link into local storage for a merge program to write through (eighth-round seed
+    C01), and each step that can fail — the smudge included (D84) — ends the merge instead of handing the program an
+    empty file -/
+theorem gen_merge_inputs_are_private_copies :
+    Gen.mergeInputCalls =
+      [
+       -- lfs.TempFile: cfg, fmt.Sprintf("merge-driver-%s", tag) | 
+       [108, 102, 115, 46, 84, 101, 109, 112, 70, 105, 108, 101, 58, 32, 99, 102, 103, 44, 32, 102, 109, 116, 46, 83, 112, 114, 105, 110, 116, 102, 40, 34, 109, 101, 114, 103, 101, 45, 100, 114, 105, 118, 101, 114, 45, 37, 115, 34, 44, 32, 116, 97, 103, 41, 32, 124, 32],
+       -- lfs.DecodePointerFromFile: filename | 
+       [108, 102, 115, 46, 68, 101, 99, 111, 100, 101, 80, 111, 105, 110, 116, 101, 114, 70, 114, 111, 109, 70, 105, 108, 101, 58, 32, 102, 105, 108, 101, 110, 97, 109, 101, 32, 124, 32],
+       -- lfs.CopyFileContents: cfg, filename, file.Name() | err != nil && errors.IsNotAPointerError(err)
+       [108, 102, 115, 46, 67, 111, 112, 121, 70, 105, 108, 101, 67, 111, 110, 116, 101, 110, 116, 115, 58, 32, 99, 102, 103, 44, 32, 102, 105, 108, 101, 110, 97, 109, 101, 44, 32, 102, 105, 108, 101, 46, 78, 97, 109, 101, 40, 41, 32, 124, 32, 101, 114, 114, 32, 33, 61, 32, 110, 105, 108, 32, 38, 38, 32, 101, 114, 114, 111, 114, 115, 46, 73, 115, 78, 111, 116, 65, 80, 111, 105, 110, 116, 101, 114, 69, 114, 114, 111, 114, 40, 101, 114, 114, 41],
+       -- tr.Tr.Get("could not create temporary file when merging: %s", err) | err != nil
+       [116, 114, 46, 84, 114, 46, 71, 101, 116, 40, 34, 99, 111, 117, 108, 100, 32, 110, 111, 116, 32, 99, 114, 101, 97, 116, 101, 32, 116, 101, 109, 112, 111, 114, 97, 114, 121, 32, 102, 105, 108, 101, 32, 119, 104, 101, 110, 32, 109, 101, 114, 103, 105, 110, 103, 58, 32, 37, 115, 34, 44, 32, 101, 114, 114, 41, 32, 124, 32, 101, 114, 114, 32, 33, 61, 32, 110, 105, 108],
+       -- tr.Tr.Get("could not copy non-LFS content when merging: %s", err) | err != nil && errors.IsNotAPointerError(err) && err != nil
+       [116, 114, 46, 84, 114, 46, 71, 101, 116, 40, 34, 99, 111, 117, 108, 100, 32, 110, 111, 116, 32, 99, 111, 112, 121, 32, 110, 111, 110, 45, 76, 70, 83, 32, 99, 111, 110, 116, 101, 110, 116, 32, 119, 104, 101, 110, 32, 109, 101, 114, 103, 105, 110, 103, 58, 32, 37, 115, 34, 44, 32, 101, 114, 114, 41, 32, 124, 32, 101, 114, 114, 32, 33, 61, 32, 110, 105, 108, 32, 38, 38, 32, 101, 114, 114, 111, 114, 115, 46, 73, 115, 78, 111, 116, 65, 80, 111, 105, 110, 116, 101, 114, 69, 114, 114, 111, 114, 40, 101, 114, 114, 41, 32, 38, 38, 32, 101, 114, 114, 32, 33, 61, 32, 110, 105, 108],
+       -- tr.Tr.Get("could not decode pointer when merging: %s", err) | err != nil && !(errors.IsNotAPointerError(err))
+       [116, 114, 46, 84, 114, 46, 71, 101, 116, 40, 34, 99, 111, 117, 108, 100, 32, 110, 111, 116, 32, 100, 101, 99, 111, 100, 101, 32, 112, 111, 105, 110, 116, 101, 114, 32, 119, 104, 101, 110, 32, 109, 101, 114, 103, 105, 110, 103, 58, 32, 37, 115, 34, 44, 32, 101, 114, 114, 41, 32, 124, 32, 101, 114, 114, 32, 33, 61, 32, 110, 105, 108, 32, 38, 38, 32, 33, 40, 101, 114, 114, 111, 114, 115, 46, 73, 115, 78, 111, 116, 65, 80, 111, 105, 110, 116, 101, 114, 69, 114, 114, 111, 114, 40, 101, 114, 114, 41, 41],
+       -- tr.Tr.Get("could not create callback: %s", err) | err != nil
+       [116, 114, 46, 84, 114, 46, 71, 101, 116, 40, 34, 99, 111, 117, 108, 100, 32, 110, 111, 116, 32, 99, 114, 101, 97, 116, 101, 32, 99, 97, 108, 108, 98, 97, 99, 107, 58, 32, 37, 115, 34, 44, 32, 101, 114, 114, 41, 32, 124, 32, 101, 114, 114, 32, 33, 61, 32, 110, 105, 108],
+       -- tr.Tr.Get("could not get the content of %s when merging: %s", filename, err) | err != nil
+       [116, 114, 46, 84, 114, 46, 71, 101, 116, 40, 34, 99, 111, 117, 108, 100, 32, 110, 111, 116, 32, 103, 101, 116, 32, 116, 104, 101, 32, 99, 111, 110, 116, 101, 110, 116, 32, 111, 102, 32, 37, 115, 32, 119, 104, 101, 110, 32, 109, 101, 114, 103, 105, 110, 103, 58, 32, 37, 115, 34, 44, 32, 102, 105, 108, 101, 110, 97, 109, 101, 44, 32, 101, 114, 114, 41, 32, 124, 32, 101, 114, 114, 32, 33, 61, 32, 110, 105, 108]
+      ] := by decide
+
 end C01
